@@ -105,9 +105,10 @@ func depPackages(verif string) []string {
 }
 
 type target struct {
-	p   *Pkg
-	key string
-	ct  *Contract
+	p     *Pkg
+	key   string
+	ct    *Contract
+	kinds map[string]bool // `props C20:lock`: only obligations of these kinds count for the property (nil: all)
 }
 
 func (eng *Engine) targetsFor(prop string) []target {
@@ -129,7 +130,13 @@ func (eng *Engine) targetsFor(prop string) []target {
 			}
 			for _, pr := range ct.Props {
 				if pr == prop {
-					out = append(out, target{p, k, ct})
+					out = append(out, target{p, k, ct, nil})
+				} else if strings.HasPrefix(pr, prop+":") {
+					kinds := map[string]bool{}
+					for _, kd := range strings.Split(pr[len(prop)+1:], "+") {
+						kinds[kd] = true
+					}
+					out = append(out, target{p, k, ct, kinds})
 				}
 			}
 		}
@@ -217,7 +224,17 @@ func cmdCheck(args []string) int {
 	}
 	var frs []*FuncResult
 	for _, t := range tg {
-		frs = append(frs, eng.verifyFunction(t.p, t.key, t.ct))
+		fr := eng.verifyFunction(t.p, t.key, t.ct)
+		if t.kinds != nil {
+			var keep []*Obligation
+			for _, o := range fr.Obls {
+				if t.kinds[o.Kind] || o.Vacuity {
+					keep = append(keep, o)
+				}
+			}
+			fr.Obls = keep
+		}
+		frs = append(frs, fr)
 	}
 	work, _ := os.MkdirTemp("", "govc-"+prop+"-")
 	defer os.RemoveAll(work)
